@@ -48,6 +48,11 @@ type hstep struct {
 	Max    int64  `json:"max"`
 	Biased bool   `json:"biased"`
 	Reset  bool   `json:"reset,omitempty"`
+	// Alias: the call is handed the history's ONE shared *drbg.Seed object, overwritten in place
+	// with this step's seed value (instead of a fresh Seed object)
+	Alias bool `json:"alias,omitempty"`
+	// Scribble: after the call the Seed object that was passed is overwritten with garbage
+	Scribble bool `json:"scribble,omitempty"`
 }
 
 func (c ccase) key() string {
@@ -741,6 +746,7 @@ func checkHistory(r *vlib.Run, d *vlib.Driver, c ccase) {
 		biased   bool
 	}
 	live := map[cfg]*probdist.WeightedDist{}
+	shared := new(drbg.Seed)
 	configs := map[string]map[cfg]bool{}
 	reuse := false
 	r.Count("history-steps", strconv.Itoa(len(c.Hist)))
@@ -756,12 +762,23 @@ func checkHistory(r *vlib.Run, d *vlib.Driver, c ccase) {
 		var w *probdist.WeightedDist
 		via := "New"
 		var pan string
+		arg := mustSeed(st.Seed)
+		if st.Alias {
+			*shared = *arg // the same Seed object as in earlier steps, refilled in place
+			arg = shared
+			via = "(shared Seed object) New"
+		}
 		if st.Reset && live[k] != nil {
-			via = "Reset"
+			via = strings.Replace(via, "New", "Reset", 1)
 			w = live[k]
-			pan = protect(func() { w.Reset(mustSeed(st.Seed)) })
+			pan = protect(func() { w.Reset(arg) })
 		} else {
-			w, pan = safeNew(mustSeed(st.Seed), st.Min, st.Max, st.Biased)
+			w, pan = safeNew(arg, st.Min, st.Max, st.Biased)
+		}
+		if pan == "" && st.Scribble {
+			for j := range arg {
+				arg[j] ^= 0x5a // the caller owns the Seed: the tables must not depend on it any more
+			}
 		}
 		if pan != "" {
 			r.Violate("new-panics", "impl-oracle", fmt.Sprintf("history step %d: %s(%s, %d, %d, %v) panicked: %s", i, via, st.Seed, st.Min, st.Max, st.Biased, pan), c)
@@ -773,6 +790,15 @@ func checkHistory(r *vlib.Run, d *vlib.Driver, c ccase) {
 		if sig, txt := tableOracle(t, st.Min, st.Max); sig != "" {
 			r.Violate(sig+"-after-history", "impl-oracle", fmt.Sprintf("history step %d of %d: %s(seed %s, bounds %d..%d, biased %v) after the same process built other configurations: %s", i, len(c.Hist), via, st.Seed, st.Min, st.Max, st.Biased, txt), c)
 			return
+		}
+		// S: the tables are a function of the seed VALUE at the time of the call: a fresh object
+		// built from a distinct, equal-valued Seed gives the same tables
+		if ref, pr := safeNew(mustSeed(st.Seed), st.Min, st.Max, st.Biased); pr == "" {
+			if rs := getTables(ref).String(); rs != t.String() {
+				r.Violate("tables-depend-on-seed-object-or-history", "impl-oracle",
+					fmt.Sprintf("history step %d of %d: %s(seed value %s, bounds %d..%d, biased %v) gives tables that differ from those of a fresh New with an equal-valued, distinct Seed object: %s", i, len(c.Hist), via, st.Seed, st.Min, st.Max, st.Biased, strings.Replace(firstDiff(t.String(), rs), "Lean model", "fresh New", 1)), c)
+				return
+			}
 		}
 		// S: equals a construction in a history-free way (fresh seed-equal object built first
 		// thing for this configuration is not available here, so compare with the model)
@@ -1059,7 +1085,17 @@ func main() {
 		var hist []hstep
 		for j, m := 0, hrng2.Range(4, 14); j < m; j++ {
 			k := hcfg[hrng2.Intn(len(hcfg))]
-			hist = append(hist, hstep{Seed: seeds[hrng2.Intn(nseeds)], Min: k.min, Max: k.max, Biased: k.biased, Reset: hrng2.Intn(2) == 0})
+			st := hstep{Seed: seeds[hrng2.Intn(nseeds)], Min: k.min, Max: k.max, Biased: k.biased, Reset: hrng2.Intn(2) == 0,
+				Alias: hrng2.Intn(2) == 0, Scribble: hrng2.Intn(4) == 0}
+			if i%2 == 1 {
+				// one live instance, one Seed object refilled in place between the calls
+				k0 := hcfg[i/2%len(hcfg)]
+				st.Min, st.Max, st.Biased, st.Reset, st.Alias = k0.min, k0.max, k0.biased, true, hrng2.Intn(4) != 0
+				if j > 0 && hrng2.Intn(3) == 0 {
+					st.Seed = hist[j-1].Seed // the same value again: nothing may change either
+				}
+			}
+			hist = append(hist, st)
 		}
 		runCase(r, d, ccase{Op: "history", Hist: hist})
 	}
